@@ -7,9 +7,15 @@
 //   --schedules FILE      replay each schedule of FILE (one JSON array per line)
 //   --random N --seed S [--pct D]   N random controlled executions
 //   --randprog            with --random: also draw a random (contract-respecting) program
+//   --stress N --seed S   E5: N free-running rounds (real threads, no controller, hooks inert); one
+//                         observation record per round (spec/spsc/SpscObs.tla validates them)
 #include <dispenso/spsc_ring_buffer.h>
 
+#include <time.h>
 #include <unistd.h>
+
+#include <atomic>
+#include <thread>
 
 #include "../ctl/ctl.h"
 #include "../ctl/drv_common.h"
@@ -266,8 +272,670 @@ static const RingKind kRings[] = {
 };
 static const int kNumRings = (int)(sizeof(kRings) / sizeof(kRings[0]));
 
+// ------------------------------------------------------------------------- E5: free-running rounds
+// One producer thread, one consumer thread and (in some rounds) one observer thread operate on the real
+// SPSCRingBuffer truly concurrently; there is no ctl::Controller, so the DISPENSO_VERIF_POINT hooks are
+// inert and the windows INSIDE a specification step (between two hook points) are exercised as well.
+// The threads are persistent; every round has a start barrier, a random start offset per thread, random
+// short programs with random tiny delays between the operations and inside the payload's special member
+// functions.  The rings persist across rounds (a round starts on an empty ring at whatever index the
+// previous round stopped, so wrap-around happens at every program position); a round ends either with the
+// consumer draining the ring or with the ring being destroyed non-empty and replaced by a fresh one.
+// One record per round (everything a user of the public API can observe, per thread, in program order):
+//   {"e":"Round","round":r,"kind":"c2x","cap":2,"stuck":0,
+//    "p":[[op,arg,res],..]      producer: 1 try_push(T&&) 2 try_push(const T&) 3 try_emplace (res 0/1; 2 = a
+//                                refused push changed its argument) 4 try_push_batch (arg = range length,
+//                                res = count; -1 = an element that was not pushed changed)
+//                                5 size() 6 empty() 7 full()            (res = returned value)
+//    "c":[[op,arg,res,v..],..]  consumer: 1 try_pop(T&) 2 try_pop() 3 try_pop_into (res = value, 0 = refused,
+//                                -1 = a refused try_pop(T&) changed its argument) 4 try_pop_batch (arg =
+//                                maxCount, res = count, then the values) 5 size() 6 empty() 7 full()
+//    "o":[[op,0,res],..]        observer thread: 5 size() 6 empty() 7 full()
+//    "fin":[size,empty,full]    the three observers called by the consumer thread after both programs ended
+//    "destroy":0|1              0: the consumer then drained the ring with try_pop ("drain" = the values);
+//                                1: the ring was destroyed as it was (and a new one constructed)
+//    "live":ctor-dtor           payload objects constructed minus destroyed by all threads in the round, counted
+//                                when the ring is empty again / destroyed and every local object is gone
+//    "errs":n}                  payload lifetime errors: constructed over a live object inside the ring's
+//                                storage, destroyed / moved from / copied from / assigned to a dead object
+// Every few rounds a STREAM round: the same random operations, but the producer goes on until K values were
+// accepted (or 4K+64 operations were made) and the consumer until it sees that the producer has finished; the
+// results are tallied instead of listed (a stream is some thousand operations):
+//   {"e":"Stream","round":r,"kind":..,"cap":..,"stuck":0,"acc":A (sum of the producer's results),
+//    "pt":[refused,changed,maxcount,over,smin,smax]  producer: refused = pushes that returned false / batches
+//                                that returned less than the range, changed = refused operations that changed
+//                                their argument, maxcount = largest count returned by try_push_batch, over =
+//                                largest (count - length of the range), smin/smax = extremes of size()
+//    "ct":[..]                   the same for the consumer (over: count - maxCount)
+//    "pops":[v,..]               every value the consumer's pops delivered, in program order
+//    "o","fin","destroy","drain","live","errs" as above}
+// The k-th value the producer offers is k (a refused value is offered again), so the accepted sequence is
+// 1..A by construction.  Payload values a reader could not have read from a live, untorn object are logged
+// as -2 (torn / out of range) or -3 (object not alive).
+namespace race {
+
+constexpr int kXor = 0x5a5a5a5a;
+constexpr int kLive = 0x600d11fe;
+constexpr int kDead = 0x0dead0ad;
+
+struct Tls {
+  long long ctor = 0, dtor = 0, errs = 0;
+  uint64_t rng = 88172645463325252ULL;
+  unsigned spinMask = 0;
+};
+static thread_local Tls tls;
+// storage of the ring the current round runs on (published by the start barrier)
+static const char* g_lo = nullptr;
+static const char* g_hi = nullptr;
+
+static inline uint64_t rnd() {
+  uint64_t x = tls.rng;
+  x ^= x << 13;
+  x ^= x >> 7;
+  x ^= x << 17;
+  return tls.rng = x;
+}
+static inline void spin(unsigned k) {
+  for (volatile unsigned i = 0; i < k; ++i) {
+  }
+}
+// a payload operation takes a little (random) time: widens the windows in which a half-done element is
+// exposed if the ring publishes / releases a slot at the wrong moment
+static inline void payloadDelay() {
+  if (tls.spinMask)
+    spin((unsigned)(rnd() & tls.spinMask));
+}
+
+struct Cell {
+  int id;
+  int chk;
+  volatile int state; // volatile: the stores of the destructor must not be optimised away
+  void born() {
+    ++tls.ctor;
+    const char* me = reinterpret_cast<const char*>(this);
+    if (me >= g_lo && me < g_hi && state == kLive)
+      ++tls.errs; // constructed over a live object (slot storage is zeroed when a ring is created)
+  }
+  static void needLive(const Cell& c) {
+    if (c.state != kLive)
+      ++tls.errs;
+  }
+  Cell() noexcept {
+    born();
+    id = 0;
+    chk = kXor;
+    state = kLive;
+  }
+  explicit Cell(int v) noexcept {
+    born();
+    id = v;
+    payloadDelay();
+    chk = v ^ kXor;
+    state = kLive;
+  }
+  Cell(const Cell& o) noexcept {
+    born();
+    needLive(o);
+    id = o.id;
+    payloadDelay();
+    chk = o.chk;
+    state = kLive;
+  }
+  Cell(Cell&& o) noexcept {
+    born();
+    needLive(o);
+    id = o.id;
+    payloadDelay();
+    chk = o.chk;
+    o.id = 0;
+    o.chk = kXor;
+    state = kLive;
+  }
+  Cell& operator=(const Cell& o) noexcept {
+    needLive(*this);
+    needLive(o);
+    id = o.id;
+    payloadDelay();
+    chk = o.chk;
+    return *this;
+  }
+  Cell& operator=(Cell&& o) noexcept {
+    needLive(*this);
+    needLive(o);
+    if (this != &o) {
+      id = o.id;
+      payloadDelay();
+      chk = o.chk;
+      o.id = 0;
+      o.chk = kXor;
+    }
+    return *this;
+  }
+  ~Cell() {
+    ++tls.dtor;
+    if (state != kLive)
+      ++tls.errs; // destroyed twice / never constructed
+    payloadDelay();
+    state = kDead;
+  }
+  // what a reader of this object sees (32-bit safe, small)
+  int value() const {
+    if (state != kLive)
+      return -3;
+    int v = id;
+    if ((v ^ kXor) != chk || v < 0 || v > 1000000)
+      return -2;
+    return v;
+  }
+};
+
+struct Rows {
+  std::vector<int> flat; // len, items...
+  // stream rounds: the results are tallied instead of listed (see the record formats above)
+  bool stream = false, producer = false;
+  std::vector<int> vals; // values received by the pops, in order
+  int refused = 0, changed = 0, maxCount = 0, over = 0, smin = 0, smax = 0;
+  void clear(bool streamRound) {
+    flat.clear();
+    vals.clear();
+    stream = streamRound;
+    refused = changed = maxCount = over = smin = smax = 0;
+  }
+  void tallyBatch(int limit, int res) {
+    if (res < 0)
+      ++changed;
+    else {
+      if (res > maxCount)
+        maxCount = res;
+      if (res - limit > over)
+        over = res - limit;
+      if (res < limit)
+        ++refused;
+    }
+  }
+  void row(int a, int b, int c) {
+    if (!stream) {
+      flat.push_back(3);
+      flat.push_back(a);
+      flat.push_back(b);
+      flat.push_back(c);
+    } else if (a <= 3) {
+      if (c == 0)
+        ++refused;
+      else if (producer)
+        changed += c == 2;
+      else if (c == -1)
+        ++changed;
+      else
+        vals.push_back(c);
+    } else if (a == 4)
+      tallyBatch(b, c);
+    else if (a == 5) {
+      if (c < smin)
+        smin = c;
+      if (c > smax)
+        smax = c;
+    }
+  }
+  template <class It>
+  void popBatchRow(int maxCnt, int res, It first, int nvals) {
+    if (!stream) {
+      flat.push_back(3 + nvals);
+      flat.push_back(4);
+      flat.push_back(maxCnt);
+      flat.push_back(res);
+      for (int j = 0; j < nvals; ++j, ++first)
+        flat.push_back(first->value());
+    } else {
+      tallyBatch(maxCnt, res);
+      for (int j = 0; j < nvals; ++j, ++first)
+        vals.push_back(first->value());
+    }
+  }
+  static void jsonInts(std::string& s, const std::vector<int>& v) {
+    s += '[';
+    for (size_t i = 0; i < v.size(); ++i) {
+      if (i)
+        s += ',';
+      s += std::to_string(v[i]);
+    }
+    s += ']';
+  }
+  void jsonTally(std::string& s) const {
+    jsonInts(s, std::vector<int>{refused, changed, maxCount, over, smin, smax});
+  }
+  void json(std::string& s) const {
+    s += '[';
+    for (size_t i = 0; i < flat.size();) {
+      if (i)
+        s += ',';
+      s += '[';
+      int len = flat[i++];
+      for (int k = 0; k < len; ++k) {
+        if (k)
+          s += ',';
+        s += std::to_string(flat[i++]);
+      }
+      s += ']';
+    }
+    s += ']';
+  }
+};
+
+struct Round {
+  long long r = 0;
+  int kind = 0;
+  void* ring = nullptr;
+  int cap = 0;
+  int nP = 0, nC = 0, nO = 0;
+  int stream = 0, K = 0; // stream round: until K values were accepted
+  int destroy = 0;
+  uint64_t seedP = 0, seedC = 0, seedO = 0;
+};
+struct Shared {
+  Round rd; // written by main before go is stored, read by the workers after they saw it
+  std::atomic<long long> go{-1}, ogo{-1};
+  std::atomic<long long> pdone{-1}, cdone{-1}, odone{-1};
+  Rows p, c, o;
+  std::vector<int> drain;
+  int fin[3] = {0, 0, 0};
+  int acc = 0;
+  long long live[3] = {0, 0, 0}, errs[3] = {0, 0, 0};
+};
+static Shared sh; // static: stuck workers may outlive runStress
+
+static inline void relax(unsigned& n) {
+  if (++n > 3000) {
+    sched_yield();
+    n = 0;
+  }
+}
+// waits for the start of round r; false = shut down
+static bool awaitRound(long long r) {
+  unsigned n = 0;
+  for (;;) {
+    long long g = sh.go.load(std::memory_order_acquire);
+    if (g == r)
+      return true;
+    if (g < -1)
+      return false;
+    relax(n);
+  }
+}
+static void beginPart(uint64_t seed) {
+  tls.rng = seed | 1;
+  tls.ctor = tls.dtor = tls.errs = 0;
+  unsigned m = (unsigned)(rnd() % 4);
+  tls.spinMask = m < 2 ? 0u : m == 2 ? 7u : 63u;
+  spin((unsigned)(rnd() % 160)); // start offset
+}
+static inline void gap() {
+  unsigned k = (unsigned)(rnd() & 15);
+  if (k == 0)
+    spin((unsigned)(rnd() % 120));
+  else if (k < 6)
+    spin(k);
+}
+static void endPart(int who) {
+  sh.live[who] = tls.ctor - tls.dtor;
+  sh.errs[who] = tls.errs;
+}
+
+template <class Ring>
+static void observe(const Ring& ring, Rows& out, unsigned which) {
+  if (which == 0)
+    out.row(5, 0, (int)ring.size());
+  else if (which == 1)
+    out.row(6, 0, ring.empty() ? 1 : 0);
+  else
+    out.row(7, 0, ring.full() ? 1 : 0);
+}
+
+template <class Ring>
+static void producerPart(const Round& rd) {
+  Ring& ring = *static_cast<Ring*>(rd.ring);
+  Rows& out = sh.p;
+  int a = 0; // accepted so far; the next value offered is a + 1
+  for (int i = 0; rd.stream ? (a < rd.K && i < 4 * rd.K + 64) : i < rd.nP; ++i) {
+    gap();
+    unsigned k = (unsigned)(rnd() % 20);
+    if (k < 4) {
+      Cell x(a + 1);
+      bool ok = ring.try_push(std::move(x));
+      out.row(1, 0, ok ? 1 : (x.value() == a + 1 ? 0 : 2));
+      a += ok;
+    } else if (k < 7) {
+      Cell x(a + 1);
+      bool ok = ring.try_push(x);
+      out.row(2, 0, ok ? 1 : (x.value() == a + 1 ? 0 : 2));
+      a += ok;
+    } else if (k < 10) {
+      bool ok = ring.try_emplace(a + 1);
+      out.row(3, 0, ok ? 1 : 0);
+      a += ok;
+    } else if (k < 17) {
+      int len = (int)(rnd() % (unsigned)(rd.cap + 3)); // 0 .. cap+2
+      std::vector<Cell> items;
+      items.reserve((size_t)len);
+      for (int j = 0; j < len; ++j)
+        items.emplace_back(a + 1 + j);
+      long long cnt = (long long)ring.try_push_batch(items.begin(), items.end());
+      int res = cnt < 0 || cnt > 1000 ? 1000 : (int)cnt;
+      for (int j = res; j < len; ++j)
+        if (items[(size_t)j].value() != a + 1 + j)
+          res = -1;
+      out.row(4, len, res);
+      if (res > 0)
+        a += res;
+    } else
+      observe(ring, out, k - 17);
+  }
+  sh.acc = a;
+}
+
+template <class Ring>
+static void consumerOps(const Round& rd) {
+  Ring& ring = *static_cast<Ring*>(rd.ring);
+  Rows& out = sh.c;
+  for (int i = 0; rd.stream ? sh.pdone.load(std::memory_order_relaxed) != rd.r : i < rd.nC; ++i) {
+    gap();
+    unsigned k = (unsigned)(rnd() % 20);
+    if (k < 4) {
+      Cell item(777777);
+      bool ok = ring.try_pop(item);
+      int v = item.value();
+      out.row(1, 0, ok ? v : (v == 777777 ? 0 : -1));
+    } else if (k < 7) {
+      auto r = ring.try_pop();
+      out.row(2, 0, r ? r.value().value() : 0);
+    } else if (k < 10) {
+      alignas(Cell) char buf[sizeof(Cell)];
+      Cell* p = reinterpret_cast<Cell*>(buf);
+      if (ring.try_pop_into(p)) {
+        out.row(3, 0, p->value());
+        p->~Cell();
+      } else
+        out.row(3, 0, 0);
+    } else if (k < 17) {
+      int maxCount = (int)(rnd() % (unsigned)(rd.cap + 2)); // 0 .. cap+1
+      std::vector<Cell> dest((size_t)maxCount);
+      long long cnt = (long long)ring.try_pop_batch(dest.begin(), (size_t)maxCount);
+      int res = cnt < 0 || cnt > maxCount ? maxCount + 1 : (int)cnt; // maxCount + 1: impossible count
+      out.popBatchRow(maxCount, res, dest.begin(), res <= maxCount ? res : maxCount);
+    } else
+      observe(ring, out, k - 17);
+  }
+}
+
+template <class Ring>
+static void consumerPart(const Round& rd) {
+  consumerOps<Ring>(rd);
+  // quiescence: wait until the producer's program has ended as well
+  unsigned n = 0;
+  while (sh.pdone.load(std::memory_order_acquire) != rd.r) {
+    if (sh.go.load(std::memory_order_acquire) < -1)
+      return;
+    relax(n);
+  }
+  Ring& ring = *static_cast<Ring*>(rd.ring);
+  sh.fin[0] = (int)ring.size();
+  sh.fin[1] = ring.empty() ? 1 : 0;
+  sh.fin[2] = ring.full() ? 1 : 0;
+  if (!rd.destroy) {
+    for (int i = 0; i < rd.cap + 2; ++i) { // a correct ring holds at most cap elements
+      Cell item;
+      if (!ring.try_pop(item))
+        break;
+      sh.drain.push_back(item.value());
+    }
+  }
+}
+
+template <class Ring>
+static void observerPart(const Round& rd) {
+  const Ring& ring = *static_cast<const Ring*>(rd.ring);
+  for (int i = 0; i < rd.nO; ++i) {
+    gap();
+    observe(ring, sh.o, (unsigned)(rnd() % 3));
+  }
+}
+
+template <class Ring>
+static void* createRing() {
+  Ring* ring = new Ring();
+  // the storage of a new ring holds no object
+  for (size_t i = 0; i < sizeof(ring->storage_) / sizeof(Cell); ++i)
+    ring->elementAt(i)->state = 0;
+  return ring;
+}
+template <class Ring>
+static void destroyRing(void* p) {
+  delete static_cast<Ring*>(p);
+}
+template <class Ring>
+static void storageOf(void* p, const char** lo, const char** hi) {
+  Ring* ring = static_cast<Ring*>(p);
+  *lo = ring->storage_;
+  *hi = ring->storage_ + sizeof(ring->storage_);
+}
+
+struct Kind {
+  const char* name;
+  int cap;
+  void (*producer)(const Round&);
+  void (*consumer)(const Round&);
+  void (*observer)(const Round&);
+  void* (*create)();
+  void (*destroy)(void*);
+  void (*storage)(void*, const char**, const char**);
+};
+#define RACE_KIND(NAME, C, P)                                                                 \
+  {NAME,                                                                                      \
+   (int)dispenso::SPSCRingBuffer<Cell, C, P>::capacity(),                                     \
+   &producerPart<dispenso::SPSCRingBuffer<Cell, C, P>>,                                       \
+   &consumerPart<dispenso::SPSCRingBuffer<Cell, C, P>>,                                       \
+   &observerPart<dispenso::SPSCRingBuffer<Cell, C, P>>,                                       \
+   &createRing<dispenso::SPSCRingBuffer<Cell, C, P>>,                                         \
+   &destroyRing<dispenso::SPSCRingBuffer<Cell, C, P>>,                                        \
+   &storageOf<dispenso::SPSCRingBuffer<Cell, C, P>>}
+static const Kind kKinds[] = {
+    RACE_KIND("c1p", 1, true),
+    RACE_KIND("c1x", 1, false),
+    RACE_KIND("c2x", 2, false),
+    RACE_KIND("c2p", 2, true),
+    RACE_KIND("c3p", 3, true),
+    RACE_KIND("c4x", 4, false),
+};
+static const int kNumKinds = (int)(sizeof(kKinds) / sizeof(kKinds[0]));
+
+static long long nowNs() {
+  timespec ts;
+  clock_gettime(CLOCK_MONOTONIC, &ts);
+  return (long long)ts.tv_sec * 1000000000LL + ts.tv_nsec;
+}
+
+static void consumerThread() {
+  for (long long r = 0;; ++r) {
+    if (!awaitRound(r))
+      return;
+    const Round& rd = sh.rd;
+    beginPart(rd.seedC);
+    kKinds[rd.kind].consumer(rd);
+    endPart(1);
+    sh.cdone.store(r, std::memory_order_release);
+  }
+}
+// the observer takes part in some rounds only (ogo = number of the round it is to join)
+static void observerThread() {
+  long long last = -1;
+  for (;;) {
+    long long g;
+    unsigned n = 0;
+    while ((g = sh.ogo.load(std::memory_order_acquire)) == last) {
+      if (++n > 300) {
+        sched_yield();
+        n = 0;
+      }
+    }
+    if (g < -1)
+      return;
+    last = g;
+    const Round& rd = sh.rd;
+    beginPart(rd.seedO);
+    kKinds[rd.kind].observer(rd);
+    endPart(2);
+    sh.odone.store(g, std::memory_order_release);
+  }
+}
+
+// Watchdog: the operations are wait-free and a round takes microseconds.  If no round completes within
+// the grace period the real code hangs: say so in a record (the validator rejects it) and leave.
+struct Watch {
+  FILE* f = nullptr;
+  std::atomic<long long> progress{0};
+  std::atomic<int> finished{0};
+  long long ops = 0;
+};
+static Watch watch;
+static void watchdogThread() {
+  const long long graceNs = 10LL * 1000 * 1000 * 1000;
+  long long seen = -1, since = nowNs();
+  while (!watch.finished.load(std::memory_order_acquire)) {
+    timespec ts = {0, 50 * 1000 * 1000};
+    nanosleep(&ts, nullptr);
+    long long p = watch.progress.load(std::memory_order_acquire);
+    long long t = nowNs();
+    if (p != seen) {
+      seen = p;
+      since = t;
+    } else if (t - since > graceNs && !watch.finished.load(std::memory_order_acquire)) {
+      const Kind& k = kKinds[sh.rd.kind];
+      fprintf(watch.f,
+              "{\"e\":\"Round\",\"round\":%lld,\"kind\":\"%s\",\"cap\":%d,\"stuck\":1,\"p\":[],\"c\":[],\"o\":[],"
+              "\"fin\":[0,0,0],\"destroy\":0,\"drain\":[],\"live\":0,\"errs\":0}\n",
+              seen, k.name, k.cap);
+      fflush(watch.f);
+      printf("DRIVER executions=%lld steps=%lld completed=%lld deadlocks=1 diverged=0 stuck=0\n", seen + 1, seen,
+             seen);
+      fflush(stdout);
+      _exit(0); // stuck threads cannot be joined; the record says what happened
+    }
+  }
+}
+
+static int runStress(const drv::Args& a) {
+  std::string out = a.str("out", "stress.ndjson");
+  FILE* f = fopen(out.c_str(), "w");
+  if (!f)
+    return 2;
+  static char iobuf[1 << 20];
+  setvbuf(f, iobuf, _IOFBF, sizeof(iobuf));
+  const long long rounds = a.num("stress", 1000);
+  const long long streamEvery = a.num("streamevery", 16); // every n-th round is a stream round (0: none)
+  const long long streamLen = a.num("streamlen", 400);    // K is drawn from [len/2, 3*len/2]
+  uint64_t rng = (uint64_t)a.num("seed", 1) * 0x9e3779b97f4a7c15ULL + 0x5bd1e995;
+  void* rings[kNumKinds];
+  for (int i = 0; i < kNumKinds; ++i)
+    rings[i] = kKinds[i].create();
+  watch.f = f;
+  std::thread cons(consumerThread), obs(observerThread), dog(watchdogThread);
+  long long ops = 0;
+  std::string line;
+  for (long long r = 0; r < rounds; ++r) {
+    Round& rd = sh.rd;
+    rd.r = r;
+    rd.kind = (int)(ctl::splitmix(rng) % (uint64_t)kNumKinds);
+    const Kind& k = kKinds[rd.kind];
+    rd.ring = rings[rd.kind];
+    rd.cap = k.cap;
+    rd.nP = 2 + (int)(ctl::splitmix(rng) % 11);
+    rd.nC = 2 + (int)(ctl::splitmix(rng) % 11);
+    rd.nO = ctl::splitmix(rng) % 4 == 0 ? 1 + (int)(ctl::splitmix(rng) % 6) : 0;
+    rd.destroy = ctl::splitmix(rng) % 5 == 0 ? 1 : 0;
+    rd.stream = streamEvery > 0 && r % streamEvery == streamEvery - 1;
+    rd.K = (int)(streamLen / 2 + (long long)(ctl::splitmix(rng) % (uint64_t)(streamLen + 1)));
+    rd.seedP = ctl::splitmix(rng);
+    rd.seedC = ctl::splitmix(rng);
+    rd.seedO = ctl::splitmix(rng);
+    sh.p.clear(rd.stream != 0);
+    sh.p.producer = true;
+    sh.c.clear(rd.stream != 0);
+    sh.o.clear(false);
+    sh.drain.clear();
+    k.storage(rd.ring, &g_lo, &g_hi);
+    if (rd.nO)
+      sh.ogo.store(r, std::memory_order_release);
+    sh.go.store(r, std::memory_order_release);
+    // this thread is the producer
+    beginPart(rd.seedP);
+    k.producer(rd);
+    sh.pdone.store(r, std::memory_order_release);
+    unsigned n = 0;
+    while (sh.cdone.load(std::memory_order_acquire) != r)
+      relax(n);
+    while (rd.nO && sh.odone.load(std::memory_order_acquire) != r)
+      relax(n);
+    if (rd.destroy) {
+      k.destroy(rd.ring);
+      rings[rd.kind] = k.create();
+    }
+    long long live = tls.ctor - tls.dtor + sh.live[1] + (rd.nO ? sh.live[2] : 0);
+    long long errs = tls.errs + sh.errs[1] + (rd.nO ? sh.errs[2] : 0);
+    auto clamp = [](long long v) { return v > 1000000 ? 1000000 : v < -1000000 ? -1000000 : v; };
+    line.clear();
+    line += std::string("{\"e\":\"") + (rd.stream ? "Stream" : "Round") + "\",\"round\":" + std::to_string(r) +
+        ",\"kind\":\"" + k.name + "\",\"cap\":" + std::to_string(k.cap) + ",\"stuck\":0,";
+    if (rd.stream) {
+      line += "\"acc\":" + std::to_string(sh.acc) + ",\"pt\":";
+      sh.p.jsonTally(line);
+      line += ",\"ct\":";
+      sh.c.jsonTally(line);
+      line += ",\"pops\":";
+      Rows::jsonInts(line, sh.c.vals);
+    } else {
+      line += "\"p\":";
+      sh.p.json(line);
+      line += ",\"c\":";
+      sh.c.json(line);
+    }
+    line += ",\"o\":";
+    sh.o.json(line);
+    line += ",\"fin\":[" + std::to_string(sh.fin[0]) + "," + std::to_string(sh.fin[1]) + "," +
+        std::to_string(sh.fin[2]) + "],\"destroy\":" + std::to_string(rd.destroy) + ",\"drain\":[";
+    for (size_t i = 0; i < sh.drain.size(); ++i) {
+      if (i)
+        line += ',';
+      line += std::to_string(sh.drain[i]);
+    }
+    line += "],\"live\":" + std::to_string(clamp(live)) + ",\"errs\":" + std::to_string(clamp(errs)) + "}\n";
+    fputs(line.c_str(), f);
+    ops += rd.stream ? 2 * sh.acc : rd.nP + rd.nC + rd.nO;
+    watch.progress.store(r + 1, std::memory_order_release);
+  }
+  watch.finished.store(1, std::memory_order_release);
+  fflush(f);
+  fclose(f);
+  printf("DRIVER executions=%lld steps=%lld completed=%lld deadlocks=0 diverged=0 stuck=0\n", rounds, ops, rounds);
+  fflush(stdout);
+  sh.go.store(-2, std::memory_order_release);
+  sh.ogo.store(-2, std::memory_order_release);
+  cons.join();
+  obs.join();
+  dog.join();
+  for (int i = 0; i < kNumKinds; ++i)
+    kKinds[i].destroy(rings[i]);
+  return 0;
+}
+
+} // namespace race
+
 int main(int argc, char** argv) {
   drv::Args a(argc, argv);
+  if (a.has("stress")) {
+    int rc = race::runStress(a);
+    fflush(stdout);
+    _exit(rc);
+  }
   ctl::Trace tr(a.str("out", "trace.ndjson"));
   drv::Totals tot;
   std::string ringName = a.str("ring", "c2x");
